@@ -11,4 +11,5 @@ def main : IO UInt32 :=
     | "c08retry" => C08.checkRetry params lines
     | "c08eng" => C08.checkEng params lines
     | "c08par" => C01.check params lines
+    | "c08kind" => C08.checkKind params lines
     | _ => { bad := [s!"unknown family {family}"] })
